@@ -340,4 +340,40 @@ theorem real_classify (r : RealSp) (nuc : Bool) :
   simp
 
 
+/-! ## counted shortcuts  `<n>r  <n>i  <n>j  <n>ilog`  (n: any non-empty digit run; 5.2 has 1…999) -/
+
+/-- the four letter groups a count can be followed by, with the token type `_parse_shortcut` gives -/
+inductive Counted
+  | r | i | j | ilog
+
+def Counted.ks : Counted → List K
+  | .r => [K.r] | .i => [K.i] | .j => [K.j] | .ilog => [K.i, K.l, K.o, K.g]
+def Counted.type : Counted → String
+  | .r => "NUM_REPEAT" | .i => "NUM_INTERPOLATE" | .j => "NUM_JUMP" | .ilog => "NUM_LOG_INTERPOLATE"
+
+theorem counted_classify (z : Bool) (ns : List Bool) (c : Counted) (nuc : Bool) :
+    classify nuc (digs (z :: ns) ++ c.ks) = some (c.type, (digs (z :: ns) ++ c.ks).length) := by
+  have hs : skipS (digs (z :: ns) ++ c.ks) = digs (z :: ns) ++ c.ks := by simp [skipS, K.isSign]
+  have hc : cntS (digs (z :: ns) ++ c.ks) = 0 := by simp [cntS, K.isSign]
+  have hsk : skipD c.ks = c.ks := by cases c <;> rfl
+  have hcd : cntD c.ks = 0 := by cases c <;> rfl
+  have hz : matchZaid (digs (z :: ns) ++ c.ks) = none := by
+    simp only [matchZaid, skipD_digs_append, hsk]
+    cases c <;> simp [Counted.ks]
+  have h1 : matchNW1 (digs (z :: ns) ++ c.ks) = some (digs (z :: ns) ++ c.ks).length := by
+    simp only [matchNW1, hs, hc, skipD_digs_append, cntD_digs_append, hsk, hcd]
+    cases c <;> simp [Counted.ks, cntL, K.isLetter, expGuard] <;> omega
+  have hm : isMultiply (digs (z :: ns) ++ c.ks) = false := by
+    have hmant : mantissa (digs (z :: ns) ++ c.ks) = some (z :: ns).length := by
+      simp only [mantissa, cntD_digs_append, skipD_digs_append, hsk, hcd]
+      cases c <;> simp [Counted.ks]
+    simp only [isMultiply, hs, hmant, drop_digs_append]
+    cases c <;> simp [Counted.ks, numTail, cntS, skipS, K.isSign, cntD]
+  have hf : numberWordFn (digs (z :: ns) ++ c.ks) = c.type := by
+    simp only [numberWordFn, parseShortcut, skipD_digs_append, hsk, hm]
+    cases c <;> simp [Counted.ks, Counted.type] <;> rfl
+  have hl : headIsLetter (digs (z :: ns) ++ c.ks) = false := by simp [headIsLetter, K.isLetter]
+  simp only [classify, hl, hz, h1, List.take_length, hf]
+  simp
+
 end MontePyVerif.LexNum
